@@ -134,6 +134,36 @@ def run(chk):
         if r != "same":
             chk.violate({"kind": "property", "case": lib.show_case(c), "impl": r[:1500],
                          "explanation": "ParseFile / ParseOne / ParseFileOne do not return the entries that Parse returns for the same changelog"})
+    # the source: how the bytes are chunked underneath must not matter - and neither where a 4096-byte buffer fill ends:
+    # changelogs of several buffer fills whose first entry is padded so that the entry boundary sweeps over the fill
+    # boundary (the whole list must come back: never a silently shortened one)
+    stexts = list(texts[::max(1, len(texts) // chk.n(200, 2000))])
+    es3 = [rand_entry(rng) for _ in range(3)]
+    base = render(es3, rng, final_newline=True, trailing_blanks=0)
+    first_len = len(render(es3[:1], rng, final_newline=True, trailing_blanks=0))
+    padded = []
+    for target in list(range(4096 - 3, 4096 + 4)) + list(range(8192 - 2, 8192 + 3)):
+        pad = target - first_len - len(b"  * \n")
+        if pad > 0:
+            # one more change line of the right length in the first entry, before its trailer
+            k = base.index(b"\n -- ")
+            padded.append(base[:k] + b"\n  * " + b"p" * pad + base[k:])
+    pref = chk.run_impl([("clparse", [t]) for t in padded])
+    for t, r in zip(padded, pref):
+        if count_entries(r) != 3:
+            chk.violate({"kind": "property", "case": lib.show_case(("clparse", [t[:200] + b"...<%d bytes>" % len(t)])), "impl": r[:400],
+                         "explanation": "a changelog of three entries whose first entry ends near a 4096-byte boundary did not come back as three entries"})
+    stexts += padded
+    sref = chk.run_impl([("clparse", [t]) for t in stexts])
+    for variant in (b"onebyte", b"half", b"dataerr", b"chunk7", b"lines", b"bufio16"):
+        sc = [("clsrc", [variant, t]) for t in stexts]
+        si = chk.run_impl(sc)
+        chk.record("source-" + variant.decode(), sc, si)
+        for c, r, w in zip(sc, si, sref):
+            if r != w:
+                chk.violate({"kind": "property", "case": lib.show_case(("clsrc", [variant, c[1][1][:300] + (b"...<%d bytes>" % len(c[1][1]) if len(c[1][1]) > 300 else b"")])),
+                             "impl": r[:600], "plain_reader": w[:600],
+                             "explanation": "the same changelog read through a source that delivers its bytes in other chunks (%s) gives other entries (or a shortened list)" % variant.decode()})
     # the date oracle itself against Python's RFC 2822 parser (supporting evidence about the oracle)
     bad = 0
     for w, a in list(ans.items())[:2000]:
